@@ -202,6 +202,20 @@ def r13_4(ctx: Ctx) -> RuleResult:
                 v = others[0]
         if isinstance(v, ast.Subscript) and "RE_FLAG_MAP" in ast.unparse(v.value):
             ored = True
+    # what parse_regex hands back is the literal compiled from *this* token's pattern and flags, on every path
+    from .common import expand_locals
+
+    for r in [n for n in ast.walk(pr.node) if isinstance(n, ast.Return) and n.value is not None]:
+        e = expand_locals(pr.node, r.value)
+        inner = None
+        if isinstance(e, ast.Call) and callee_name(e) == "RegexLiteral":
+            inner = kw(e, "value") or (e.args[0] if e.args else None)
+        if isinstance(inner, ast.Call) and callee_name(inner) == "compile" and ast.dump(inner) == ast.dump(expand_locals(pr.node, comp[0])):
+            rr.ok(pr.loc(r), "parse_regex returns RegexLiteral(re.compile(pattern, flags)) of this token")
+        else:
+            rr.bad(pr, r, f"parse_regex returns `{short(r.value)}`, which is not always the literal compiled from this token's "
+                   "pattern and flags (a literal remembered from an earlier token with the same pattern carries that token's flags)",
+                   construct=f"parse_regex returns {short(r.value)}")
     if ored:
         rr.ok(pr.loc(comp[0]), "every flag letter is OR-ed through RE_FLAG_MAP into re.compile")
     else:
